@@ -93,8 +93,10 @@ impl<T, U, W> Ds<T, U, W> {
     { Ds { records: self.records, targets: self.targets, weights: self.weights, feature_names: self.feature_names, target_names: names } }
 }
 
-// the float part: uninterpreted (Verus does not interpret f32).  Assumption, listed: for a finite ratio in [0,1] the
-// count does not exceed n (true whenever n is exactly representable in f32; the Kani units decide the value itself).
+// the float part: uninterpreted (Verus does not interpret f32).  ASSUMPTION, listed: for a finite ratio in [0,1] the
+// count does not exceed n.  True whenever n is exactly representable in f32 (n <= 2^24); beyond that n as f32 can
+// round up and the real function panics at `self.nsamples() - n1` (natively observed: n = 16_777_219, ratio = 1.0).
+// The value of the count itself is decided by the Kani units (n <= 3, ratio fully symbolic).
 pub uninterp spec fn spec_ceil_count(n: usize, ratio: f32) -> usize;
 #[verifier::external_body]
 fn ceil_count(n: usize, ratio: f32) -> (r: usize)
